@@ -41,7 +41,7 @@ def main():
             else:
                 row["apply_err"] = (ap.stdout + ap.stderr)[-300:]
         finally:
-            sh("git -C /repo checkout -- . && git -C /repo reset -q --hard HEAD && git -C /repo clean -fdq")
+            sh("git -C /repo reset -q --hard HEAD; git -C /repo checkout -- .; git -C /repo clean -fdq")
             sh(f"cd {VERIF} && git checkout -- evidence lean/Ahbicht/Generated 2>/dev/null")
         out[d.name] = row
         print(d.name, row, flush=True)
